@@ -142,6 +142,8 @@ def make_index(spec, n):
         m = np.array([bool(spec[1][i % len(spec[1])]) for i in range(n)])
         if not m.any():
             m[spec[2] % n] = True
+        if spec[2] % 3 == 0:
+            return [bool(v) for v in m], 'bool_mask'    # plain Python list
         return m, 'bool_mask'
     raise ValueError(kind)
 
@@ -290,7 +292,8 @@ def check_history(case, ctx):
             else:
                 child = parent.get_id(int(np.atleast_1d(ref.ids)[idx]))
             ctx.event('via_get_label/id')
-        elif via == 'gets' and isinstance(idx, list):
+        elif via == 'gets' and isinstance(idx, list) \
+                and not isinstance(idx[0], bool):
             if case['kind'] == 'cat':
                 child = parent.get_labels([int(np.atleast_1d(ref.labels)[i]) for i in idx])
             else:
@@ -387,6 +390,10 @@ def _independence(case, parent, child, ref, idx, idx2, ctx):
         who, name = op[0], op[1]
         actor, other = (child, parent) if who == 'child' else (parent, child)
         n = nchild if who == 'child' else nparent
+        try:
+            meta_before = repr(sorted(other.to_table().meta.items()))
+        except Exception:
+            meta_before = None
         before = snapshot(other)
         extra_before = list(other.extra_properties)
         try:
@@ -441,6 +448,15 @@ def _independence(case, parent, child, ref, idx, idx2, ctx):
                 continue
             raise
         ctx.event(f'op_{who}_{name}')
+        # table metadata is part of what a catalog reports
+        try:
+            meta_now = repr(sorted(other.to_table().meta.items()))
+        except Exception:
+            meta_now = None
+        if meta_before is not None and meta_now != meta_before:
+            raise Violation('not_independent',
+                            f'{name} on the {who} changed the other catalog\'s '
+                            f'to_table().meta', op=name, who=who)
         d = snap_diff(before, snapshot(other))
         if d is not None:
             raise Violation('not_independent',
